@@ -420,3 +420,11 @@ Definition params_in_local_order (c : tclass) (env : list Z) : list Z :=
   map (fun i => nth i env 0) (filter (is_param c) (seq 0 (length (c_locals c)))).
 Definition key_print (G : list Z) (c : tclass) (key : Z) : list Z :=
   params_in_local_order c (decode G c key).
+
+(* The header of a task class may list the parameters in another order than they are defined
+   (`T(m, n)` with n defined before m).  make_key and key_print work in DEFINITION order; the header
+   order is a separate permutation: to_header_order rearranges a definition-order tuple of
+   parameter values into the order of the header (what parsec_task_snprintf shows). *)
+Definition param_positions (c : tclass) : list nat := filter (is_param c) (seq 0 (length (c_locals c))).
+Definition to_header_order (c : tclass) (vals : list Z) : list Z :=
+  map (fun i => match index_of i (param_positions c) with Some j => nth j vals 0 | None => 0 end) (c_params c).
